@@ -2692,6 +2692,12 @@ class RelevantPatientInformationQueryServiceClass(ServiceClass):
             status = self.statuses[rsp.Status]
         else:
             # Unknown status
+            if code_to_category(cast(int, rsp.Status)) == STATUS_PENDING:
+                # A 'Pending' status that isn't valid for the service can't
+                #   end the operation: the requestor would keep waiting for
+                #   the final response
+                LOGGER.error("Invalid 'Pending' status returned by callback")
+                rsp.Status = 0xC002
             self.dimse.send_msg(rsp, cx_id)
             return
 
